@@ -19,6 +19,7 @@ CONSTANTS
   Gz = FALSE
   OsFail = FALSE
   BufFloor = 99
+  ActFull = FALSE
   Hist = FALSE
 SPECIFICATION TSpec
 INVARIANTS GapFreeSuffix NotLessThanIdeal LenExact AtMostOneRoll
